@@ -82,10 +82,9 @@ def explore_tree(st, label, factory, values, pairs):
             obs = observe(tree)
             which = [name for name, a, b in zip(("snapshot", "repr", "json", "python"), obs0, obs) if a != b]
             st.violation("tree-changed:" + "+".join(which), "%s: after validating %r the tree's %s changed" % (label, v, "/".join(which)), {"tree": label, "history": [v], "changed": which, "before": [str(x)[:400] for x in obs0[1:]], "after": [str(x)[:400] for x in obs[1:]]})
-            tree = factory()
-            target = tree[0] if isinstance(tree, tuple) else tree
-            obs0 = observe(tree)
-            st.add("states")
+            # one violation per tree is enough; continuing on a tree that changes under every call can blow up
+            # (e.g. an element that nests itself one level deeper per validation)
+            return
     # repetition round: history = all values, then each again
     for n, v in enumerate(values):
         kind, canon = step(target, n, v, ["<all values>", v])
